@@ -18,7 +18,7 @@ pub fn rule() -> String {
 }
 
 pub fn run(ctx: &Ctx) -> (Report, String) {
-    let per_shard = ctx.n(1400, 40000);
+    let per_shard = ctx.n(6000, 100000);
     let mut pre = Report::new();
     conformance(&mut pre);
     let reps = par_shards(SHARDS, ctx.threads, |s| {
@@ -31,7 +31,7 @@ pub fn run(ctx: &Ctx) -> (Report, String) {
     let mut rep = Report::merge_all(reps);
     rep.merge(pre);
     if ctx.is_main() {
-        rep.require("pictures_compared", if ctx.tier == Tier::Quick { 20000 } else { 500000 } * ctx.scale_pct / 100);
+        rep.require("pictures_compared", if ctx.tier == Tier::Quick { 250_000 } else { 4_000_000 } * ctx.scale_pct / 100);
         for k in ["flavour=sorenson-v0", "flavour=sorenson-v1", "flavour=std-plusptype", "shape=first-row", "shape=first-col", "shape=dense", "shape=last63", "shape=dc-only", "esc=Esc7", "esc=Esc8", "esc=Esc11", "esc=Short", "kind=INTRA+Q"] {
             rep.require(k, 50);
         }
